@@ -173,6 +173,7 @@ int strIn(const std::string &s) {
 }
 void strOut(std::string &s, int n) { Guard g; s = pattern(n); }
 void strPtrOut(std::string *s, int n) { Guard g; *s = pattern(n); }
+int strCountChar(const std::string &text, char c) { Guard g; int k = 0; for (size_t i = 0; i < text.size(); i++) if (text[i] == c) k++; return k + 100 * static_cast<int>(text.size()); }
 void strInout(std::string &s) { Guard g; s = s + "+x"; }
 int strPtrIn(const std::string *s) { Guard g; return strIn(*s) + 7; }
 int strValIn(std::string s) { Guard g; return strIn(s) + 9; }
@@ -242,6 +243,7 @@ void arrGrabRef(int *&out, int n) {
     sim_handout(a, "intarr");
     out = a;
 }
+void arrSquares(int n, int *out) { Guard g; for (int i = 0; i < n; i++) out[i] = i * i; }
 void arrFillOut(int n, double *out) { Guard g; for (int i = 0; i <= n; i++) out[i] = 0.5 * i; }
 int arrSum(const int *arr, int n) { Guard g; int s = 0; for (int i = 0; i < n; i++) s += arr[i]; return s + 1000000 * n; }
 void arrWeights(int *values, int nvalues, const int *weights, int nweights) { Guard g; for (int i = 0; i < nvalues; i++) values[i] *= (nweights > 0 ? weights[i % nweights] : 1); }
